@@ -165,6 +165,9 @@ func init() {
 		"runtime.Gosched":    func(fr *frame, a []value) value { return nil },
 		"runtime.KeepAlive":  func(fr *frame, a []value) value { return nil },
 		"runtime.GC":         func(fr *frame, a []value) value { return nil },
+		// process statistics: the destination keeps its zero values (nothing decided here depends on them)
+		"runtime.ReadMemStats": func(fr *frame, a []value) value { return nil },
+		"runtime.NumGoroutine": func(fr *frame, a []value) value { return 1 },
 
 		"fmt.Sprintf":  extOpaqueString("fmt.Sprintf"),
 		"fmt.Sprint":   extOpaqueString("fmt.Sprint"),
